@@ -31,6 +31,7 @@ txmode directives), every number `t0` of files applied by earlier runs, every cr
   kind, any count, any revision table): a process that dies before the last operation of the command - the
   only COMMIT, if there is one - has changed nothing durable.
 
+* `rerun_after_crash_all_any` — ... and the re-run after such a crash is the crashed run over again.
 * `crash_none_any` — `--tx-mode none` for ANY directory without directives (failing statements anywhere, any
   count, any revision table): the state after a crash is exactly the operations performed before it, applied
   in order - whatever ran is durable, nothing is ever undone.
@@ -469,6 +470,14 @@ example :
     let dir : List TFile := [{ ok := [true, true] }, { ok := [true] }, { ok := [true, false] }]
     (plan { mode := .all } dir {}).1.length = 17 ∧
     ∀ k < 17, crashAt {} (plan { mode := .all } dir {}).1 k = {} := by decide
+
+/-- **rerun_after_crash_all_any**: `--tx-mode all`, any directory: the same command after a crash before the last
+operation plans exactly what the crashed run planned - the interrupted run is repeated as a whole, no statement
+was kept from it. -/
+theorem rerun_after_crash_all_any (cfg : Cfg) (hm : cfg.mode = .all) (dir : List TFile) (db : Db) (k : Nat)
+    (hk : k < (plan cfg dir db).1.length) :
+    plan cfg dir (crashAt db (plan cfg dir db).1 k) = plan cfg dir db := by
+  rw [crash_all_any cfg hm dir db k hk]
 
 /-- **crash_none_any**: `--tx-mode none`, any directory without directives (failing statements anywhere), any
 count and revision table, any crash point: the durable state is the fold of the operations performed so far. -/
